@@ -91,6 +91,36 @@ def shrink(mod, exe, r, sig, env=None):
     return r, ""
 
 
+def regen_others(own):
+    import hashlib
+    stamp = os.path.join(core.CACHE, "gen_tree_stamp")
+    os.makedirs(core.CACHE, exist_ok=True)
+    h = core._hash_files(core._tree_files())
+    try:
+        if open(stamp).read().strip() == h:
+            return
+    except OSError:
+        pass
+    with core.Lock("regen"):
+        for i in range(1, 21):
+            pid = "C%02d" % i
+            if pid == own:
+                continue
+            try:
+                m = load(pid)
+            except Exception:
+                continue
+            if hasattr(m, "translate"):
+                c = Ctx()
+                c.tier, c.seed, c.rng, c.rep, c.mod = "quick", 0, random.Random(0), None, m
+                try:
+                    m.translate(c)
+                except Exception:
+                    pass
+        with open(stamp, "w") as f:
+            f.write(h)
+
+
 def run_property(prop, tier, seed, replay=None):
     mod = load(prop)
     rep = Report(mod.ID, tier, seed)
@@ -102,7 +132,11 @@ def run_property(prop, tier, seed, replay=None):
     ctx.tier, ctx.seed, ctx.rng, ctx.rep, ctx.mod = tier, seed, rng, rep, mod
     sigf = getattr(mod, "signature", default_signature)
 
-    # 1. translators: regenerate Gen/ from the current source
+    # 1. translators: regenerate Gen/ from the current source.
+    # Extension modules (Props/Cnnx.lean) import other properties' Gen files, so when the source tree is
+    # not the one the Gen directory was last generated from, every translator is run first (errors of the
+    # other properties' translators are theirs to report; their last good output stays in place).
+    regen_others(mod.ID)
     gen_problems = []
     if hasattr(mod, "translate"):
         try:
